@@ -270,6 +270,51 @@ theorem C15_poolSync_is_C14_sync (p : Pool) (threshold : Nat) (listed : List Poo
     (now : Nat) : (poolSync p threshold listed retry now).1 = p.sync threshold listed retry now :=
   poolSync_fst p threshold listed retry now
 
+/-! ### pool: a Create call that has returned is no longer pending -/
+
+/-- **Create settles.** Whatever the cloud answers — instance, quota error, rate-limit error, other
+error — the call leaves `wp.creating` when it returns, so `Unallocated()` counts it afterwards only
+if a worker was really added; a quota error switches `Create` off until quotaErrorTTL has passed and
+a rate-limit error until its retry time, and in both cases later calls are refused without being
+registered. -/
+theorem C15_resp_create_settles (p : CPool) (r : CreateRes) (h : 0 < p.creating) :
+    (p.ret r).creating = p.creating - 1 ∧
+    (p.ret r).unallocated = p.unallocated - (if r = .ok then 0 else 1) ∧
+    (r = .quota → (p.ret r).atQuota = true) ∧ (r = .rateLimit → (p.ret r).throttled = true) ∧
+    ((p.ret r).atQuota = true ∨ (p.ret r).throttled = true → (p.ret r).call = none) := by
+  refine ⟨rfl, ?_, ?_, ?_, ?_⟩
+  · unfold CPool.ret CPool.unallocated
+    cases r <;> simp <;> omega
+  · intro e; simp [CPool.ret, e]
+  · intro e; simp [CPool.ret, e]
+  · intro hq
+    unfold CPool.call
+    rcases hq with hq | hq <;> simp [hq]
+
+/-- After any sequence of completed `Create` calls (and back-off expiries) nothing is pending and
+`Unallocated()` is exactly the number of workers that were added. -/
+theorem C15_resp_create_no_phantom (script : List (Option CreateRes)) (p : CPool) (h : p.creating = 0) :
+    let q := script.foldl (fun p s => match s with
+      | some r => (p.create r).1
+      | none => { p with atQuota := false, throttled := false }) p
+    q.creating = 0 ∧ q.unallocated = q.booting := by
+  induction script generalizing p with
+  | nil => exact ⟨h, by simp [CPool.unallocated, h]⟩
+  | cons s rest ih =>
+    simp only [List.foldl_cons]
+    apply ih
+    cases s with
+    | none => exact h
+    | some r =>
+      show (p.create r).1.creating = 0
+      unfold CPool.create CPool.call
+      by_cases hc : (p.atQuota || p.throttled) = true
+      · simp [hc, h]
+      · simp [hc, h, CPool.ret]
+
+example : ((⟨0, 0, false, false⟩ : CPool).create .quota).1 = ⟨0, 0, true, false⟩ := by decide
+example : ((⟨0, 0, false, false⟩ : CPool).create .ok).1.unallocated = 1 := by decide
+
 /-! ### runner: Kill gives up -/
 
 /-- **Unkillable process past timeoutTERM ⇒ worker set to drain.** The Kill goroutine ends as soon
